@@ -54,6 +54,23 @@ AllCases == \A s \in Strings :
     /\ Emit(Case("Len", s, <<>>, <<Len(s)>>))
     /\ \A w \in Widths : Emit(Case("RemoveRunes", s, <<w>>, RemoveDef(s, w)))
 
+\* long strings (word-at-a-time and buffered implementations change behaviour at 8, 16, 32, 64 bytes): k one-byte
+\* runes, one rune of each width (so that it lies across every byte offset), t more one-byte runes
+Rep(n, v) == [i \in 1..n |-> v]
+LongStrings == {Rep(k, 1) \o <<w>> \o Rep(t, 1) : k \in 22..41, w \in Widths, t \in {0, 1, 2, 3, 5, 7, 8, 30}}
+LongCases == \A s \in LongStrings : LET n == Len(s) IN
+    /\ Emit(Case("Len", s, <<>>, <<n>>))
+    /\ Emit(Case("Rev", s, <<>>, RevDef(s)))
+    /\ \A st \in {0, 21, n - 2, n - 1, n} : \A ln \in {-1, 1, 3, n} : Emit(Case("Sub", s, <<st, ln>>, SubDef(s, st, ln)))
+    /\ \A st \in {0, 3, n - 1} : \A en \in {0, 2, n - 3} : \A multi \in {FALSE, TRUE} :
+            Emit(Case("Mask", s, <<st, en, IF multi THEN 1 ELSE 0>>, MaskDef(s, st, en, multi)))
+    /\ \A lim \in {n - 3, n - 2, n - 1, n, n + 1, n + 2} : Emit(Case("SubByDisplay", s, <<lim>>, DisplayDef(s, lim)))
+    /\ \A w \in Widths : Emit(Case("RemoveRunes", s, <<w>>, RemoveDef(s, w)))
+\* long identifiers: m words "l l d" joined by underscores
+RECURSIVE Words(_)
+Words(m) == IF m = 1 THEN <<"l", "l", "d">> ELSE Words(m - 1) \o <<"u", "l", "l", "d">>
+LongIdentCases == \A m \in {8, 15, 16, 17, 20, 33, 70} : Emit([fn |-> "SnakeCamel", s |-> Words(m), a |-> <<>>, out |-> Words(m), valid |-> TRUE])
+
 \* lower-case snake_case identifiers: [a-z][a-z0-9]*(_[a-z][a-z0-9]*)*  over the classes l(etter) d(igit) u(nderscore)
 IsIdent(s) == /\ Len(s) >= 1 /\ s[1] = "l" /\ s[Len(s)] # "u"
               /\ \A i \in 1..Len(s) - 1 : s[i] = "u" => s[i + 1] = "l"
@@ -62,6 +79,8 @@ IdentCases == \A s \in Idents : Emit([fn |-> "SnakeCamel", s |-> s, a |-> <<>>, 
 
 ASSUME AllCases
 ASSUME IdentCases
+ASSUME LongCases
+ASSUME LongIdentCases
 Init == x = 0
 Next == x' = x
 Spec == Init /\ [][Next]_x
